@@ -117,6 +117,13 @@ func c06Oracle(c c06Case) error {
 	if err != nil {
 		return err
 	}
+	// Earlier calls on the very same snapshot must not matter either: aggregate it again,
+	// coarsest level first, and compare with the first results.
+	for li := len(allLevels) - 1; li >= 0; li-- {
+		if again := first.snap.Aggregate(allLevels[li]).Buckets; !reflect.DeepEqual(again, first.buckets[li]) {
+			return fmt.Errorf("Aggregate(%s) on the same snapshot gives different buckets after other aggregations: %v vs %v", levelNames[allLevels[li]], bucketIDs(again), bucketIDs(first.buckets[li]))
+		}
+	}
 	for r := 1; r < reps(); r++ {
 		if r%3 == 1 {
 			_, _ = runPipeline(other, opts, r%6 == 1)
